@@ -32,12 +32,18 @@ def run(ctx):
     for path in sorted(glob.glob(os.path.join(common.VERIF, "corpus", "C15", "*.json"))):
         for c in json.load(open(path))["cases"]:
             ev = [tuple(e) for e in c["events"]]
-            o = impl.run_schedule(c["K"], c["T"], ev, exact=True, t0=c.get("t0", 0))
+            o = impl.run_schedule(c["K"], c["T"], ev, exact=True, t0=c.get("t0", 0), payloads=c.get("payloads"))
             record(ctx, cases, c["K"], c["T"], c.get("t0", 0), ev, o, eps, "corpus:" + os.path.basename(path))
     n = ctx.n(2400, 40000)
     for i in range(n):
         K, T, t0, ev, o = gen_schedule(ctx.rng, impl)
         record(ctx, cases, K, T, t0, ev, o, eps, "generated")
+    for K, T, t0, ev, o in steady_trickle(ctx, impl):
+        record(ctx, cases, K, T, t0, ev, o, eps, "steady-trickle")
+        if "error-chunk" in o.kinds and not o.torn:
+            ctx.fail("oracle/receive-error-on-valid-stream", "a well-formed inbound stream (valid under every chunking) made the "
+                     "receiver abandon the connection  [K=%r T=%r events=%r payloads=%r]" % (K, T, ev, o.payloads[:60]),
+                     replay=dict(K=K, T=T, t0=t0, events=ev, payloads=o.payloads))
     if ctx.tier == "thorough":
         for K, T, t0, ev in small_patterns():
             o = impl.run_schedule(K, T, ev, exact=True, t0=t0)
@@ -81,7 +87,10 @@ def gen_schedule(rng, impl):
     t0 = rng.choice([0, 0, 17, 1000])
     eps = impl.eps_ms()
     punctual = rng.random() < 0.6
-    r = impl.Run(K, T, True, t0)
+    # what the arrivals carry: one PONG byte each, or successive chunks of a stream with every kind of inbound byte
+    stream = impl.inbound_stream(rng, rng.randint(1, 5)) if rng.random() < 0.6 else None
+    maxchunk = rng.choice([1, 1, 3, 12, 60, 400])
+    r = impl.Run(K, T, True, t0, stream=stream)
     t = t0
     last = t0
     n = rng.randint(0, 14)
@@ -132,7 +141,7 @@ def gen_schedule(rng, impl):
             u = rng.choice(cands)
             if punctual:
                 tick_through(u, rng.random() < 0.5)
-            r.step("rxbad" if x > 0.90 else "rx", u)
+            r.step("rxbad" if x > 0.90 else "rx", u, rng.randint(1, maxchunk))
             t = u
             last = u
         else:
@@ -159,6 +168,52 @@ def gen_schedule(rng, impl):
         r.step("tick", horizon + 1)
     o = r.finish()
     return K, T, t0, list(o.events), o
+
+
+def steady_trickle(ctx, impl):
+    """'some byte arrives at least every T' for every KIND of inbound byte: a stream with accepted tokens, tokens
+    discarded after a Violation, skipped bodies of rejected STRING/LONGINT/FLOAT tokens, PING/PONG and partial headers
+    trickles in a few bytes at a time, one arrival every g <= T, for much longer than 2T + eps, with a punctual reactor
+    (and, in half of the runs, an occasionally late one).  The oracle is the general one (no teardown / PING unless
+    the latest arrival is older than T / K)."""
+    rng = ctx.rng
+    eps = impl.eps_ms()
+    for trial in range(ctx.n(120, 1500)):
+        K = rng.choice([None, 2000, 5000])
+        T = rng.choice([3000, 3000, 1000, 7000])
+        t0 = rng.choice([0, 17])
+        g = rng.choice([T, T - 1, T // 2, 700, (K or T) if (K or T) <= T else T, 1])
+        stream = impl.inbound_stream(rng, rng.randint(1, 3))
+        maxchunk = rng.choice([1, 2, 5, 25])
+        # start somewhere inside the stream's first block or at its beginning
+        r = impl.Run(K, T, True, t0, stream=stream)
+        t = t0
+        late = rng.random() < 0.5
+        n = rng.randint(8, 40)
+        for i in range(n):
+            u = t + (g if rng.random() < 0.8 else rng.randint(0, g))
+            for _ in range(60):
+                pend = [x for x in r.pending() if x is not None]
+                if not pend or min(pend) > u or (min(pend) == u and rng.random() < 0.5):
+                    break
+                e = max(t, min(pend))
+                if late and rng.random() < 0.3:
+                    e = min(u, e + rng.randint(0, 400))
+                r.step("tick", e)
+                t = e
+            r.step("rx", u, rng.randint(1, maxchunk))
+            t = u
+        # then silence: the bounds apply
+        horizon = t + 2 * max(K or 0, T) + eps + 1
+        for _ in range(60):
+            pend = [x for x in r.pending() if x is not None]
+            if not pend or min(pend) > horizon:
+                break
+            t = max(t, min(pend))
+            r.step("tick", t)
+        r.step("tick", horizon + 1)
+        o = r.finish()
+        yield K, T, t0, list(o.events), o
 
 
 def small_patterns():
@@ -194,9 +249,13 @@ def record(ctx, cases, K, T, t0, ev, o, eps, origin):
     ctx.hist("events", len(ev) // 5 * 5)
     ctx.hist("outcome", ("torn" if o.torn else "kept") + ("+ping" if o.pings else "") + ("+closed" if o.closed_at is not None else ""))
     ctx.sample(dict(K=K, T=T, t0=t0, events=ev[:12], torn=o.torn, pings=o.pings[:5]))
+    for kd in getattr(o, "kinds", []):
+        ctx.hist("arrival-kind", kd)
     for sig, what in judge(K, T, eps, t0, ev, o, 0):
-        ctx.fail(sig, what + "  [K=%r T=%r t0=%r events=%r]" % (K, T, t0, ev),
-                 replay=dict(K=K, T=T, t0=t0, events=ev, torn=o.torn, pings=o.pings, trace=o.trace))
+        rxk = list(zip([e for e in ev if e[0] in ("rx", "rxbad")], o.kinds, o.payloads))
+        ctx.fail(sig, what + "  [K=%r T=%r t0=%r events=%r; rx payloads (event, kind of bytes, hex): %r]" % (K, T, t0, ev, rxk[:40]),
+                 replay=dict(K=K, T=T, t0=t0, events=ev, payloads=o.payloads, arrival_kinds=o.kinds, torn=o.torn, pings=o.pings,
+                             trace=o.trace))
     cases.append((K, T, t0, ev, o))
 
 
